@@ -1,8 +1,13 @@
-(* Properties_C01.v — C01 (object level): write-then-read returns the same object.
-   Statement only; proved in Inst/Codec.v from the generic theorem Lib/ClassRT.object_roundtrip and
-   boolean checks evaluated on the programs regenerated from /repo. *)
+(* Properties_C01.v — C01: write-then-read returns the same objects, in order.
+   Statements only.  C01_object (object level) is proved in Inst/Codec.v from the generic theorem
+   Lib/ClassRT.object_roundtrip and boolean checks evaluated on the programs regenerated from /repo.
+   C01_stream (the uncompressed stream) composes it, for ANY list of objects, with the parser stage of the file
+   model (Inst/StreamRT.v): header peek, seek back, factory, decode, count — until the end of the stream.
+   PARTIAL: the container layer between the two (cutting the stream into log containers, zlib, the LogContainer
+   codec) is covered by C04/C07 theorems about the cut (concat (pieces U) = U) and otherwise by the
+   correspondence runs: bin/check C01 reads back every file written in the file-layer run. *)
 From VB Require Import Base IR Sem StreamFacts EvalFacts Roundtrip ClassRT.
-From VB Require Import Classes Consts Common CodecDefs Codec.
+From VB Require Import Classes Consts Common CodecDefs Codec FileModel FileDefs StreamRT.
 Local Open Scope Z_scope.
 
 (* For every class of the library outside the committed exception list, every API-expressible
@@ -28,3 +33,21 @@ Print Assumptions C01_object.
 Example C01_nonvacuous :
   (100 <? Z.of_nat (length (minus object_classes rt_exceptions))) = true.
 Proof. vm_compute. reflexivity. Qed.
+
+(* The uncompressed stream: for EVERY list of well-formed written objects (regular classes, API-expressible states, a type
+   code the factory maps back to the class, declared size not below a default object's), the parser stage of the file
+   model — run with the fuel read_session gives it over the concatenation of their encodings, i.e. over what the write
+   worker appended — delivers exactly those objects: same classes, every emitted member as written, every other member as
+   freshly constructed; in order, each once; it counts them (restore-point objects excepted) and ends, by the library's
+   end-of-stream exception, after the last one. *)
+Theorem C01_stream : forall objs, Forall wobj_ok objs ->
+  let U := concat (map w_bytes objs) in
+  exists ds, Forall2 same_obj objs ds /\
+    obj_loop cs scan_p default_cap factory_table C_ohb fid_objectSize fid_objectType (2 * length U + 16) (mk_ustream U) [] 0
+    = (ds, fold_left (fun c o => next_count o c) objs 0, EndException).
+Proof. exact stream_roundtrip. Qed.
+Print Assumptions C01_stream.
+
+(* non-vacuity: a default-constructed CanMessage is such an object, and two of them in a row come back *)
+Example C01_stream_nonvacuous : match ex_obj "CanMessage" 1 48 48 with Some o => wobj_ok o | None => False end.
+Proof. exact ex_can_ok. Qed.
